@@ -8,6 +8,7 @@ CONSTANTS
   IdleAge = 150
   MaxTime = 1000000
   MaxReq = 1000000
+  CleanupFirst = FALSE
   EvictRegardless = FALSE
 CONSTRAINT Report
 PROPERTY Isolation
